@@ -90,6 +90,8 @@ func (a *AggregatePlan) listAggrFunctions(expr Expression) ([]*FunctionCallExpr,
 }
 
 func (a *AggregatePlan) Init() error {
+	// The groups are emptied below: they have to be computed again
+	a.prepared = false
 	a.aggrMap = make(map[string][]*AggrPlanField)
 	a.aggrRows = make([][]*AggrPlanField, 0, 10)
 	a.aggrKeyFields = make([]Expression, 0, 10)
